@@ -328,7 +328,7 @@ func (w *hpWorld) violate(sig, msg string, extra map[string]interface{}) {
 	}
 	wit := map[string]interface{}{"history": w.h, "fault": w.fault, "executed": w.trace, "failing_observation": msg, "model": model,
 		"harness_http_listener": w.srvKey,
-		"nat_dump": w.ipt.Dump("nat"), "galaxy_config": w.cfg.JSONText}
+		"nat_dump":              w.ipt.Dump("nat"), "galaxy_config": w.cfg.JSONText}
 	for k, v := range extra {
 		wit[k] = v
 	}
